@@ -19,9 +19,13 @@ import (
 
 // C15 — CQRS buses and processors dispatch by type name with the configured ack policy.
 
+// (fields that are absent from some payloads and a map: a decoder handed a recycled object shows what it was not told
+// to overwrite)
 type jA struct {
-	ID string
-	N  int
+	ID    string
+	N     int
+	Attrs map[string]string `json:"attrs,omitempty"`
+	Note  *string           `json:"note,omitempty"`
 }
 type jB struct{ Text string }
 
@@ -29,7 +33,7 @@ func (jB) Name() string { return "custom-b" }
 
 type jC struct {
 	Flag bool
-	Tags []string
+	Tags []string `json:"tags,omitempty"`
 }
 type jD struct{ X float64 }
 
@@ -50,10 +54,21 @@ func c15Value(proto bool, typ, variant int) any {
 	}
 	switch typ {
 	case 0:
-		return &jA{ID: fmt.Sprintf("id-%d", variant), N: variant}
+		v := &jA{ID: fmt.Sprintf("id-%d", variant), N: variant}
+		if variant%4 != 0 {
+			v.Attrs = map[string]string{fmt.Sprintf("k%d", variant%3): fmt.Sprint(variant)}
+		}
+		if variant%2 == 1 {
+			note := fmt.Sprintf("note-%d", variant)
+			v.Note = &note
+		}
+		return v
 	case 1:
 		return &jB{Text: fmt.Sprintf("text \"%d\" é", variant)}
 	case 2:
+		if variant%3 == 0 {
+			return &jC{Flag: variant%2 == 0}
+		}
 		return &jC{Flag: variant%2 == 0, Tags: []string{"a", fmt.Sprint(variant)}}
 	default:
 		return &jD{X: float64(variant) / 3}
